@@ -88,8 +88,19 @@ func TestPropTypedRoundTrip(t *testing.T) {
 		k := genKey().Draw(t, "key")
 		m := genMeta().Draw(t, "meta")
 		p := genPayload().Draw(t, "payload")
-		raw := checkTypedRoundTrip(t, k[0], k[1], m, p)
+		// the storage form of a record does not depend on what the program has configured as its default
+		// serialization format for other uses of dsd
+		def := rapid.SampledFrom([]uint8{dsd.JSON, dsd.JSON, dsd.JSON, dsd.CBOR, dsd.MsgPack, dsd.YAML, dsd.GenCode, dsd.RAW}).Draw(t, "default_serialization_format")
+		old := dsd.DefaultSerializationFormat
+		dsd.DefaultSerializationFormat = def
+		raw := func() []byte {
+			defer func() { dsd.DefaultSerializationFormat = old }()
+			return checkTypedRoundTrip(t, k[0], k[1], m, p)
+		}()
 		cls := []string{"typed"}
+		if def != dsd.JSON {
+			cls = append(cls, "typed_with_another_default_serialization_format")
+		}
 		if m.deleted() {
 			cls = append(cls, "typed_deleted")
 		}
